@@ -323,6 +323,8 @@ def check(pid, tier, seed):
     bounds_obligations(run)
     kinds_obligations(run)
     idxguard_obligation(run)
+    from props import c10
+    c10.partial_unwrap_obligation(run)
     return run
 
 
